@@ -11,6 +11,7 @@ from loguru import logger
 from omegaconf import OmegaConf
 
 from mdpax.core.solver import Solver
+from mdpax.utils import _verif
 
 
 class CheckpointMixin(ABC):
@@ -221,6 +222,8 @@ class CheckpointMixin(ABC):
         )
 
         self._restore_state_from_checkpoint(cp_state)
+        if _verif.ENABLED:
+            _verif.emit("restored", solver=self, step=step, route="load_checkpoint")
 
     def _save_solver_config(self) -> None:
         """Save the solver config to the checkpoint directory."""
@@ -281,10 +284,14 @@ class CheckpointMixin(ABC):
 
         # Get state to checkpoint
         cp_state = self.solver_state
+        if _verif.ENABLED:
+            _verif.emit("save_call", solver=self, step=step)
 
         # Save checkpoint
         self.checkpoint_manager.save(step, args=checkpoint.args.StandardSave(cp_state))
 
+        if _verif.ENABLED:
+            _verif.emit("save_return", solver=self, step=step)
         status = "queued" if self.enable_async_checkpointing else "saved"
         logger.debug(f"Checkpoint {status} for iteration {step}")
 
@@ -365,6 +372,8 @@ class CheckpointMixin(ABC):
 
         # Restore runtime state
         solver._restore_state_from_checkpoint(cp_state)
+        if _verif.ENABLED:
+            _verif.emit("restored", solver=solver, step=step, route="restore")
 
         return solver
 
